@@ -36,14 +36,17 @@ type HistResult struct {
 
 // RunHist executes the plan. d is the device in front of NewMnemonic (nil for
 // the real source); identity reports whether the current source is the expected one.
-func RunHist(p *HistPlan, d *dev.Dev, identity func() (bool, string)) *HistResult {
+func RunHist(p *HistPlan, d *dev.Dev, identity func(lazyOK bool) (bool, string)) *HistResult {
 	res := &HistResult{}
+	// a source variable that is still nil is "not initialised yet" (lazy designs) as long as no
+	// NewMnemonic call with an accepted word count has run in this process
+	newDone := false
 	checkID := func(at int) {
 		if !p.Identity {
 			return
 		}
 		res.IdChecks++
-		if ok, info := identity(); !ok {
+		if ok, info := identity(!newDone); !ok {
 			res.IdBad = append(res.IdBad, at)
 			if res.IdInfo == "" {
 				res.IdInfo = info
@@ -67,6 +70,9 @@ func RunHist(p *HistPlan, d *dev.Dev, identity func() (bool, string)) *HistResul
 		}
 		o, h := Exec(op, armed)
 		res.Outcomes = append(res.Outcomes, o)
+		if op.K == "new" && op.N >= 12 && op.N <= 24 && op.N%3 == 0 {
+			newDone = true
+		}
 		if d != nil && op.K == "new" {
 			res.Delivered = append(res.Delivered, hex.EncodeToString(d.Delivered[start:]))
 			res.Reads = append(res.Reads, append([]plan.ReadRec(nil), d.Log[rstart:]...))
